@@ -84,8 +84,10 @@ func (wtr *XMLWtr) container(lvl int) node.Node {
 		return wtr.container(lvl + 1), nil
 	}
 	s.OnBeginEdit = func(r node.NodeRequest) error {
-		// a container, or the list entry the output starts at (entries below are opened by OnNext)
-		if !meta.IsLeaf(r.Selection.Meta()) && (r.Selection.InsideList || !meta.IsList(r.Selection.Meta())) {
+		// a container, or the list entry the output starts at (entries below are opened by OnNext),
+		// or the list the output starts at: its entries go into one element named like the list
+		// so that there is one document
+		if !meta.IsLeaf(r.Selection.Meta()) && (r.Selection.InsideList || !meta.IsList(r.Selection.Meta()) || (lvl == 0 && first)) {
 			if lvl == 0 && first {
 				ns := wtr.getXmlns(r.Selection.Path)
 				ident := wtr.ident(r.Selection.Path) + xmlnsAttr(ns)
